@@ -28,11 +28,11 @@ ROOTS = {
             U + '::get_duration_event_time', U + '::_field_sort_order', AG + '::AgeGrader.event_code_to_kind', 'athlib/codes.py'],
     'C11': ['athlib/tyrving_score.py', 'athlib/qkids_score.py', 'athlib/sportshall_score.py', 'athlib/bulgarian_score.py'],
     'C12': [U + '::check_performance_for_discipline', U + '::parse_hms', U + '::get_distance', U + '::field_event_record',
-            U + '::format_seconds_as_time'],
+            U + '::format_seconds_as_time', 'athlib/codes.py'],
     'C13': ['athlib/uka/agegroups.py'],
     'C14': [AG, INIT],
     'C15': [AG, U + '::get_distance', INIT + '::wma_age_factor', INIT + '::wma_world_best'],
-    'C17': ['athlib/implements.py', U + '::check_event_code', U + '::normalize_event_code', 'athlib/uka/agegroups.py'],
+    'C17': ['athlib/implements.py', U + '::check_event_code', U + '::normalize_event_code', 'athlib/uka/agegroups.py', 'athlib/codes.py'],
     'C18': [U + '::round_up_str_num', U + '::format_seconds_as_time', U + '::parse_hms', U + '::str2num', U + '::is_hand_timing',
             U + '::normalize_event_code', U + '::get_distance', 'athlib/tyrving_score.py', 'athlib/qkids_score.py'],
     'C19': [U + '::schema_valid', U + '::valid_against_schema', U + '::_add_to_cache', U + '::localpath', U + '::LocalFileResolver.resolve_from_url'],
